@@ -98,3 +98,22 @@ package couchbase
 //@ ensures.build[C18] result1 == nil ==> result.Build == ite(n >= 3 && nb >= 2, atoi(b0), 0)
 //@ nopanic
 //@ modifies nothing
+
+// Gate constants SrvVer550/650/720: their values are derived on every run from the package initialiser and
+// the frame scan const-globals checks that nothing else can write them (engine/globals.go).
+
+//@ func (*BucketInfo).IsMagma
+//@ props C18
+//@ requires b != nil
+//@ ensures.magma[C18] result == (b.StorageBackend == "magma")
+//@ modifies nothing
+
+//@ func NewHTTPClient
+//@ props C18
+//@ ensures result != nil
+//@ modifies nothing
+
+//@ func NewClient
+//@ trusted
+//@ ensures result != nil
+//@ modifies nothing
